@@ -27,4 +27,42 @@ def run(ctx):
                         "the exit clause is judged on the severities printed with the findings (incl. unused-suppression)"]
 
 
+    project_stage(ctx)
+
+
+def project_stage(ctx):
+    """Project.tla: where a scan is started, which configuration it finds and which text the globs see.  C15's slice
+    (project directory, clean relative argument) is judged at property level; the rest is reported as an extension."""
+    mc = vlib.model_check(ctx, "mc/MC_Project.tla", "mc/MC_Project.cfg", workers=2, timeout=600)
+    wit = vlib.run_tlc(ctx, "mc/MC_Project.tla", "mc/MC_Project_witness.cfg", workers=2, timeout=600, keep_vec=False)
+    if wit.violated != "AgreeEverywhere":
+        raise vlib.ToolError("MC_Project_witness: AgreeEverywhere is no longer violated - the model lost the difference between "
+                             "the path as typed and the path relative to the project")
+    vec = ctx.path("project-vectors.ndjson")
+    vlib.write_ndjson(vec, mc.vec)
+    rec = ctx.path("project-records.ndjson")
+    summ = vlib.agv_ok(ctx, ["drive", "project", "--vectors", vec, "--out", rec], timeout=1800)
+    before = len(ctx.cov["drift"])
+    n, fails = vlib.validate_trace(ctx, "trace/Trace_Project.tla", "trace/Trace_Project.cfg", rec)
+    for f in fails:
+        case = vlib.nth_line(rec, f["index"])
+        for reason in f["reasons"]:
+            vlib.report_failure(ctx, {"reason": reason, "stage": "project"}, {"record": case, "reason": reason, "seed": ctx.seed, "tier": ctx.tier},
+                                "%s: `sgv %s` in %s: %s" % (case["id"], " ".join(case["typed"]), "/".join(case["cwd"]) or ".", reason))
+    new = ctx.cov["drift"][before:]
+    ext = [d for d in new if any(str(w).startswith("ext:") for w in (d.get("what") or []))]
+    model = [d for d in new if any(not str(w).startswith("ext:") for w in (d.get("what") or []))]
+    # keep the evidence readable: the extension finding is one entry, the model drift stays in full
+    ctx.cov["drift"] = ctx.cov["drift"][:before] + model
+    if ext:
+        case = vlib.nth_line(rec, ext[0]["index"])
+        print("EXTENSION-FINDING project paths (%d of %d runs, e.g. `sgv %s` in %s): `files` / `ignores` globs are matched against "
+              "the path as typed, not against the path relative to the project directory" %
+              (len(ext), n, " ".join(case["typed"]), "/".join(case["cwd"]) or "the project directory"), flush=True)
+    ctx.cov["project_stage"] = {"runs": n, "runs_outside_c15_slice_where_reports_differ": len(ext), "driver": summ,
+                                "model": "Project.tla ReportI = the real report in every run (else DRIFT project-paths-model)"}
+    ctx.cov["traces_validated_against_impl"] += n - len(fails)
+    ctx.cov["evaluations"] = ctx.cov.get("evaluations", 0) + n
+
+
 replay = vlib.std_replay(run)
